@@ -226,7 +226,7 @@ def build(case, transport, rng):
         expect[str(len(actors) - 1)] = list(hexp)
     return {"gateways": specs, "actors": actors, "expect": expect, "knobs": knobs, "strategy": strategy,
             "preempt": [], "preempt_at": [], "faults": [], "transport": transport, "gwi": gwi,
-            "errtext_limit": case.get("errtext_limit", 4000)}
+            "backend": case["backend"], "errtext_limit": case.get("errtext_limit", 4000)}
 
 
 def transcript(case, res, hist):
@@ -239,7 +239,9 @@ def transcript(case, res, hist):
             r = hist.ret.get((aid, oi))
             rr = r[1] if r else ("<no result>",)
             if rr and rr[0] == "status":
-                rr = ("status", "ok")  # the counters themselves are timing dependent
+                # the counters are timing dependent, the execmodel is not - except on socket workers, which run
+                # the socket server's model whatever the spec says ("XXX: switch to spec" in bootstrap_socket)
+                rr = ("status", case.get("backend") if case.get("transport", "").startswith("socket") else rr[3])
             if rr and rr[0] == "exc" and rr[1] == "EOFError":
                 rr = ("exc", "EOFError")  # the text names the IO class' way of noticing the end of the stream
             if rr and rr[0] == "exc" and rr[1] == "RemoteError":
